@@ -31,4 +31,27 @@ MODULES = {
              params=[("outarr['baf']", 'OQ', 'baf'), ('absolutes', 'Q'), ("outarr['cn']", 'Z', 'cn')],
              returns=["outarr['cn1']", "outarr['cn2']"], ret=['OZ', 'OZ']),
     ]),
+    # absolute_threshold's threshold scan, ONE ITERATION of `for cnum, thresh in enumerate(thresholds):` as a step
+    # function of the loop variable cnum (result: new cnum, left-the-loop flag), plus the for/else fallback expression
+    # and the NaN branch as fragments.  A module of its own, so that a refusal is attributed to the scan alone.
+    # (Proofs/FnCallScan.v: C02_source_scan_step / C02_source_scan -- folding the step over enumerate(thresholds)
+    #  equals Model/Threshold.v scan_row)
+    'FnCallScan': ('cnvlib/call.py', [
+        dict(name='_log2_ratio_to_absolute_pure', coq='fn_scan_abs_pure',
+             params=[('log2_ratio', 'Q'), ('ref_copies', 'Z')], ret='Q'),
+        dict(name='absolute_threshold', coq='fn_threshold_step',
+             py_params=['cnarr', 'ploidy', 'thresholds', 'is_haploid_x_reference'],
+             loop=dict(first='for cnum, thresh in enumerate(thresholds)', ignore_else=True),
+             carried=[('cnum', 'Z')],
+             params=[('cnum', 'Z'), ('thresh', 'Q'), ('row.log2', 'Q', 'log2'), ('ref_copies', 'Z'), ('ploidy', 'Z')],
+             ret='Z'),
+        # the for/else fallback: cnum = int(np.ceil(_log2_ratio_to_absolute_pure(row.log2, ref_copies)))
+        dict(name='absolute_threshold', coq='fn_threshold_else',
+             py_params=['cnarr', 'ploidy', 'thresholds', 'is_haploid_x_reference'],
+             fragment=dict(first='cnum = int(np.', last='cnum = int(np.'),
+             params=[('row.log2', 'Q', 'log2'), ('ref_copies', 'Z')], returns=['cnum'], ret='Z'),
+        # (the NaN branch `if np.isnan(row.log2): logging.warning(...); absolutes[idx] = ref_copies; continue` does not
+        #  fit: an expression statement (logging call) and a store to an integer-indexed array element inside the if --
+        #  the translator answers "unsupported if-statement shape"; it stays with scan_row's `None => r` + correspondence)
+    ]),
 }
